@@ -30,6 +30,9 @@ type Case struct {
 	NoRestore    bool `json:"no_restore"`
 	RestoreFail  int  `json:"restore_fail,omitempty"` // bitmask over names: the restore mount of that remote snapshot fails
 	Leftover     bool `json:"leftover_mounts"`        // dead mounts of the old process are still in the mount table
+	// HalfRemoved (bitmask over the dead process's mountpoints, in sorted order): the process was killed while Close
+	// was removing the directories of its remote snapshots (children first): the "fs" child is already gone
+	HalfRemoved int `json:"half_removed,omitempty"`
 }
 
 func gen(t *rapid.T) Case {
@@ -47,6 +50,9 @@ func gen(t *rapid.T) Case {
 		c.RestoreFail = rapid.IntRange(1, 255).Draw(t, "restoremask")
 	}
 	c.Leftover = rapid.Bool().Draw(t, "leftover")
+	if rapid.IntRange(0, 4).Draw(t, "halfremoved") == 0 {
+		c.HalfRemoved = rapid.IntRange(1, 15).Draw(t, "halfmask")
+	}
 	return c
 }
 
@@ -286,6 +292,19 @@ func checkImage(c Case, img image, ack, ackEnd map[string]snapshots.Info, inflig
 			mp := filepath.Join(img.dir, rel)
 			if _, err := os.Stat(mp); err == nil {
 				syscall.Mount(bindSrc, mp, "", syscall.MS_BIND, "")
+			}
+		}
+	}
+	if c.HalfRemoved != 0 {
+		rels := append([]string(nil), img.live...)
+		sort.Strings(rels)
+		for k, rel := range rels {
+			if c.HalfRemoved&(1<<uint(k%8)) != 0 {
+				mp := filepath.Join(img.dir, rel)
+				syscall.Unmount(mp, syscall.MNT_DETACH)
+				if os.Remove(mp) == nil {
+					ev.Class("mountpoint-directory-already-removed")
+				}
 			}
 		}
 	}
